@@ -355,9 +355,46 @@ def _eval_fit_slicer(inp):
     return [(case, "unknown reference keywords / too few intervals are rejected when the model is fitted", ok, f"{cls.__name__} in a 2-D model: {what}")]
 
 
+def _eval_refit_too_few(inp):
+    """history: a model that was fitted successfully is fitted again to data (same size) that leave too few intervals -
+    the second fit has to be rejected like a first one would be (nothing of the first slicing may be re-used)"""
+    name = inp["slicer"]
+    cls = _slicer_cls(name)
+    sl = cls({"width": 1.0, "number": 6, "points": 60}[name], min_n_points=20, min_n_intervals=3)
+    descs = _valid_descs([None, 0], ["weibull", "lognormal"], True)
+    descs[0]["intervals"] = sl
+    model = GlobalHierarchicalModel(descs)
+    good = _fit_data(2, 600, 3)
+    case = f"fit_slicer/refit_too_few_intervals/{name}"
+    clause = "too few intervals are rejected when the model is fitted (also on a re-fit of an already fitted model)"
+    try:
+        with np.errstate(all="ignore"):
+            model.fit(good)
+    except Exception as e:
+        return [(case, clause, True, f"first fit not possible ({type(e).__name__}): scenario not applicable")]
+    bad = good.copy()
+    if name == "points":
+        bad = bad[:100]          # fewer observations than three chunks of 60
+    else:
+        # squeeze the conditioning variable into a narrow band: one or two intervals hold everything (same number of rows)
+        bad[:, 0] = 1.0 + 0.2 * (bad[:, 0] - bad[:, 0].min()) / (np.ptp(bad[:, 0]) + 1e-12)
+        if name == "number":
+            bad[:5, 0] = 40.0 + np.arange(5)   # the range stays wide, but four of the six intervals are (nearly) empty
+    with np.errstate(all="ignore"):
+        fresh = GlobalHierarchicalModel(_valid_descs([None, 0], ["weibull", "lognormal"], True))
+        fresh.distributions  # noqa: B018
+        d2 = _valid_descs([None, 0], ["weibull", "lognormal"], True)
+        d2[0]["intervals"] = cls({"width": 1.0, "number": 6, "points": 60}[name], min_n_points=20, min_n_intervals=3)
+        first_ok, first_what = _raises(lambda: GlobalHierarchicalModel(d2).fit(bad))
+        ok, what = _raises(lambda: model.fit(bad))
+    if not first_ok:
+        return [(case, clause, True, "the data would be accepted by a first fit as well: scenario not applicable")]
+    return [(case, clause, ok, f"{cls.__name__}: a first fit to these data is rejected ({first_what}); the re-fit of the fitted model: {what}")]
+
+
 _EVAL = {
     "model": _eval_model, "fit": _eval_fit, "hdc": _eval_hdc, "nonfinite": _eval_nonfinite, "contour2d": _eval_contour2d,
-    "iform_type": _eval_iform_type, "slicer": _eval_slicer, "fit_slicer": _eval_fit_slicer,
+    "iform_type": _eval_iform_type, "slicer": _eval_slicer, "fit_slicer": _eval_fit_slicer, "refit_too_few": _eval_refit_too_few,
 }
 
 
@@ -591,4 +628,5 @@ def run(tier, seed):
     feed(gen_contours())
     rec.begin("slicers", "unknown options (6) and reference keywords (8-11) for the three slicers; too few intervals (9 configurations); the same through model.fit", rule)
     feed(gen_slicers())
+    feed({"kind": "refit_too_few", "slicer": nm} for nm in ("width", "number", "points"))
     return jsonable(rec.result())
